@@ -311,8 +311,8 @@ func (r *WordRenderer) extractCodeBlockLines(node ast.Node) []string {
 
 	for i := 0; i < node.Lines().Len(); i++ {
 		line := node.Lines().At(i)
-		lineText := string(line.Value(r.source))
-		// 保持原始格式，包括空格和制表符
+		// 保持原始格式，包括空格和制表符；行尾换行符不属于该行的文本
+		lineText := strings.TrimRight(string(line.Value(r.source)), "\r\n")
 		lines = append(lines, lineText)
 	}
 
